@@ -17,7 +17,10 @@ git -C "$base/repo" clean -fdq -e target
 mkdir -p "$base/verif/evidence" "$base/verif/replays" "$base/verif/corpus"
 cp /verif/known_findings.txt "$base/verif/" 2>/dev/null
 rsync -a --delete /verif/corpus/ "$base/verif/corpus/" 2>/dev/null
-rsync -a --delete --exclude target /verif/engine/ "$base/engine/"
+# the engine as last committed in /verif (so that edits in progress never reach a slot)
+rm -rf "$base/engine.new"; mkdir -p "$base/engine.new"
+git -C /verif archive HEAD engine | tar -x -C "$base/engine.new"
+rsync -a --delete --checksum "$base/engine.new/engine/" "$base/engine/"; rm -rf "$base/engine.new"
 sed -i "s#path = \"/repo\"#path = \"$base/repo\"#" "$base/engine/Cargo.toml"
 sed -i "s#target-dir = \"/verif/.target\"#target-dir = \"$base/target\"#" "$base/engine/.cargo/config.toml"
 if [ "$patch" != "--clean" ]; then
